@@ -23,6 +23,9 @@ CHECKS={
  "C06":("model_checking",E1,"bounded-exhaustive exploration of restart histories (directory = state) on the real logger",
         "Every sequence of up to 3 (quick) / 4 (thorough) runs, each run = append on/off x clock +0/+1 s x shape {no write, W, WWW, W R W}, is executed on one directory by the real logger for naming x cleanup (Never, KeepLogFiles, KeepCompressedFiles, KeepLogAndCompressedFiles; synchronous) x three file-name shapes plus the non-rotating file; after every run: files that existed keep their content (only the file appended to may grow), and the decompressed stream in age order equals all accepted records (minus a removable prefix with a cleanup limit; minus the documented truncation).",
         "Virtual clock; size limit 15 with 10-byte lines; direct write mode; names freed by the cleanup limit may be used again.","4 C06"),
+ "C07":("model_checking",E1,"bounded-exhaustive history exploration with a step oracle, plus preemption-bounded schedule exploration of the background cleanup thread",
+        "E1: every history up to depth 4 (quick) / 5 (thorough) over {rotating write, small write, trigger_rotation, clock+1s, restart with/without append} for naming x Cleanup(k,m in 0..2) x suffixes, with cleanup in the logging thread (oracle after every operation), in the async writer thread and in the free-running background thread (oracle after shutdown): count limits, contiguous tail of the logged stream, gz round trip against the plain file it replaced, current file plain and newest, nothing removed beyond the limit. E2: logging thread vs background cleanup thread under the controlled scheduler with scheduling points at every listing/remove/create/copy/finish step, all schedules with <= 1 (quick) / 3 (thorough) preemptions.",
+        "Size limit 15; virtual clock; E2 assumes the hook points cover all interactions between logging and cleanup thread (state mutex, channel, file system calls).","4 C07"),
  "C08":("model_checking",E1,"bounded-exhaustive exploration of record-length sequences against a reference partition",
         "All sequences of line lengths over {1,2,N-1,N,N+1,3N} up to depth 3-4 (quick) / 5-6 (thorough) for N in {0,1,10,25} x write modes (direct, buffered below/at/above N, async) x naming x start state (fresh / append onto 0,N-1,N,N+1,2N bytes) x Size|AgeOrSize x LF|CRLF run on the real logger; the files in age order must equal the partition predicted by `if cur > N {rotate}`.",
         "Virtual clock frozen; observation after shutdown(); values of N and capacities limited to the boundary-placed ones.","4 C08"),
